@@ -235,6 +235,13 @@ func init() {
 		if rng.Intn(4) == 0 {
 			p.Spec.Volumes = []corev1.Volume{{Name: "data"}}
 		}
+		// the template may set process-namespace sharing itself, either way
+		pnsTok := "none"
+		if rng.Intn(3) == 0 {
+			b := rng.Intn(2) == 0
+			p.Spec.ShareProcessNamespace = &b
+			pnsTok = b01(b)
+		}
 		c := fake.NewClientBuilder().WithScheme(valScheme).WithRuntimeObjects(objs...).Build()
 		inj := pod.NewSidecarInjector(c, admission.NewDecoder(valScheme))
 		// ---- op line
@@ -246,7 +253,7 @@ func init() {
 		for _, v := range p.Spec.Volumes {
 			vols = append(vols, v.Name)
 		}
-		podTok := fmt.Sprintf("%s %d %s %s none", hxPairs(mapPairs(p.Labels)), len(ctoks), strings.Join(ctoks, " "), hxList(vols))
+		podTok := fmt.Sprintf("%s %d %s %s %s", hxPairs(mapPairs(p.Labels)), len(ctoks), strings.Join(ctoks, " "), hxList(vols), pnsTok)
 		customTok := "0"
 		if mc.Collector.CustomCollector != nil {
 			customTok = "1 " + ctTok(*mc.Collector.CustomCollector)
